@@ -16,6 +16,7 @@ import (
 	"verif/env"
 	"verif/envsys"
 	"verif/harness"
+	"verif/raftrun"
 	"verif/sim"
 	"verif/tlc"
 )
@@ -85,8 +86,21 @@ func runSystem(w *sim.World, wd *env.World, sys tlc.System, key string, st stepp
 func scenario(w *sim.World) {
 	last.valid = false
 	wd := env.NewWorld(w)
-	switch w.Choose(sim.KCfg, 1) {
-	case 0:
+	switch w.Choose(sim.KCfg, 2) {
+	case 1:
+		// raftkvs: the bag network of the spec (any delivery order) in half of the runs
+		out := raftrun.Run(w, raftrun.Options{RecordTrace: true, MaxSteps: 200 + 150*w.Choose(sim.KCfg, 4), BagNetwork: w.Choose(sim.KCfg, 2) == 1, Small: true})
+		sys := out.R.TLCSystem(repoRoot)
+		w.Count("spec_steps_raftkvs", len(out.Trace.States)-1)
+		w.Count("spec_steps", len(out.Trace.States)-1)
+		w.Probe("system_raftkvs")
+		for _, f := range out.Failures {
+			if strings.HasPrefix(f, "archetype_failed|") {
+				w.Fail("go_failure_raftkvs", "%s", f)
+			}
+		}
+		last.sys, last.key, last.trace, last.valid = sys, fmt.Sprintf("raftkvs/%v", sys.Consts), out.Trace, true
+	default:
 		n := 1 + w.Choose(sim.KCfg, 4)
 		s := envsys.NewLockSvc(wd, n, false)
 		w.Event("system locksvc clients=%d", n)
@@ -182,12 +196,16 @@ func tail(s string, n int) string {
 }
 
 func TestWorker(t *testing.T) {
+	bs := 16
+	if os.Getenv("VERIF_TIER") == "thorough" {
+		bs = 100
+	}
 	harness.Worker(t, harness.Spec{
 		Property:  "C02",
 		Configure: func(seed uint64, tier string) sim.RunConfig { return sim.RunConfig{MaxSteps: 1_000_000, StepCost: 1000} },
 		Scenario:  scenario,
 		Batch:     &batch{},
-		BatchSize: 25,
+		BatchSize: bs,
 		NonTrivial: func(r *sim.Result) bool {
 			return r.Counts["spec_steps"] >= 3
 		},
